@@ -22,7 +22,8 @@
   (`spt` for `t = true`, `spb` for `t = false`).
   Covered in extension modules: the GF(2) pivot for `reg` (C10Pivot.lean), 1- and 2-sums for `reg` (C10Sums.lean),
   the non-transposition, non-pivot steps for `gra`/`cog`/`net`/`con` (C10Graphic.lean).
-  Not covered: the GF(2) pivot for `gra`/`cog`/`spb`, the GF(3) pivot for `net`/`con`/`spt`, the class `cam`,
+  the GF(2) pivot for `spb` and the GF(3) pivot for `spt` (C10SPPivot.lean).
+  Not covered: the GF(2) pivot for `gra`/`cog`, the GF(3) pivot for `net`/`con`, the class `cam`,
   sums for classes other than `tu`, `reg` (C10Sums.lean), `gra` and `net` (C10GraphicSums.lean), `spb` and `spt` (C10SPSums.lean).
 -/
 import CmrProofs.Lemmas.RelLemmas
